@@ -15,7 +15,7 @@ use serde_json::json;
 pub static SPEC: PropSpec = PropSpec {
     id: "C05",
     level: "exploration",
-    rule: "programs: scope-torture functions over the names x, y, z built from 12 constructs (struct patterns in a let and in a match arm, use, let, let referring to the shadowed binding, tuple let, match arm with tuple pattern, match arms with enum patterns, closure with parameter called later, if/else blocks, loop body, nested block) nested up to depth 4, every binder bound to a unique constant and every use printed; plus generated programs with a three-name identifier pool. negative: the same programs with one extra use of a name placed (a) after the construct that bound it ended, (b) before its let, (c) in the sibling arm / branch - each must be rejected with an unresolved-name diagnostic naming it. non-trivial: accepted programs whose uses resolved to >= 5 distinct binders; distinct by (construct nest path) hash",
+    rule: "programs: scope-torture functions over the names x, y, z built from 12 constructs (struct patterns in a let and in a match arm, use, let, let referring to the shadowed binding, tuple let, match arm with tuple pattern, match arms with enum patterns, closure with parameter called later, if/else blocks, loop body, nested block) nested up to depth 4, every binder bound to a unique constant and every use printed; plus callee-shadowing functions (locals - function-typed parameters, let-bound closures and function values, tuple-pattern / match-arm variables, closure parameters - named like the top-level functions f and g, used in call position and as values at every nesting; each function value adds its own constant); plus generated programs with a three-name identifier pool. negative: the same programs with one extra use of a name placed (a) after the construct that bound it ended, (b) before its let, (c) in the sibling arm / branch - each must be rejected with an unresolved-name diagnostic naming it. non-trivial: accepted programs whose uses resolved to >= 5 distinct binders; distinct by (construct nest path) hash",
     eval_counter: "uses_checked",
     assumptions: &["relative to refsem's environment-stack semantics and gomini"],
     crash_is_violation: false,
